@@ -500,6 +500,59 @@ def check_answers(case: t.Any, ctx: Ctx) -> None:
         ctx.fail('boolean-algebra', 'answer-truth', f"{ident}: {'accepted' if k == 'ok' else 'refused'}, the answer's truth is {truth}")
 
 
+# ---- emptiness is about length, not truth ---------------------------------------------------------------------------------------
+#
+# Empty / NonEmpty: "have no elements" - len(value) == 0 / != 0.  Values whose truth is something else than "has elements" (arrays:
+# [0] is false, [1, 2] has no truth at all; a user container with a __bool__ of its own) tell the two apart.
+
+EMPTINESS = ['array []', 'array [0]', 'array [1, 2]', 'array [[0, 0], [0, 0]]', 'list []', 'list [0]', 'bag empty-but-true', 'bag full-but-false']
+
+
+def emptiness_cases(shard: int, nshards: int) -> t.Iterator[t.Any]:
+    i = 0
+    for e in range(len(EMPTINESS)):
+        for cond in ('Empty', 'NonEmpty', '~Empty', '~NonEmpty'):
+            for where in ('bare', 'List'):
+                if i % nshards == shard:
+                    yield [e, cond, where]
+                i += 1
+
+
+_BAG: t.List[t.Any] = []
+
+
+def check_emptiness(case: t.Any, ctx: Ctx) -> None:
+    import numpy
+    import pane
+    from pane.annotations import Empty, NonEmpty
+    (e, cname, where) = case
+    if not _BAG:
+        def bag_len(self: t.Any) -> int:
+            return len(self.items)
+
+        def bag_bool(self: t.Any) -> bool:
+            return self.enabled
+        _BAG.append(type('Bag', (pane.PaneBase,), {'__annotations__': {'items': t.List[int], 'enabled': bool}, '__len__': bag_len, '__bool__': bag_bool}))
+    Bag = _BAG[0]
+    name = EMPTINESS[e]
+    (inner, data, n) = {
+        'array []': (numpy.ndarray, [], 0), 'array [0]': (numpy.ndarray, [0], 1), 'array [1, 2]': (numpy.ndarray, [1, 2], 2),
+        'array [[0, 0], [0, 0]]': (numpy.ndarray, [[0, 0], [0, 0]], 2), 'list []': (t.List[int], [], 0), 'list [0]': (t.List[int], [0], 1),
+        'bag empty-but-true': (Bag, {'items': [], 'enabled': True}, 0), 'bag full-but-false': (Bag, {'items': [1, 2], 'enabled': False}, 2),
+    }[name]
+    cond = {'Empty': Empty, 'NonEmpty': NonEmpty, '~Empty': ~Empty, '~NonEmpty': ~NonEmpty}[cname]
+    want = {'Empty': n == 0, 'NonEmpty': n != 0, '~Empty': n != 0, '~NonEmpty': n == 0}[cname]
+    T0 = t.Annotated[inner, cond]       # type: ignore[valid-type]
+    (T, v) = (T0, data) if where == 'bare' else (t.List[T0], [data])
+    ctx.label(f"emptiness:{name.split(' ')[0]}", cname, where)
+    ctx.nontrivial(name not in ('list []', 'list [0]'))
+    ctx.evaluated()
+    (k, got) = outcome(lambda: pane.from_data(v, T))
+    if k == 'exc' or (k == 'ok') != want:
+        ctx.fail('stock-conditions', f"emptiness:{cname}", f"Annotated[{getattr(inner, '__name__', inner)}, {cname}] ({where}) given {v!r}: "
+                 f"{'accepted' if k == 'ok' else 'refused' if k == 'ce' else 'raised ' + type(got).__name__ + ': ' + str(got)[:100]}; the value has {n} element(s)")
+
+
 def suites(tier: str) -> t.List[Suite]:
     big = tier == 'thorough'
     return [
@@ -507,6 +560,7 @@ def suites(tier: str) -> t.List[Suite]:
         Suite('custom-annotation', check_custom_annotation, strategy=lambda: ca_cases, examples=3000 if big else 300, budget_s=60 if big else 10,
               render=lambda c: {'conditions before Plus100()': c[0], 'conditions after': c[1], 'value': c[2]}),
         Suite('predicate-answers', check_answers, cases=answer_cases, exhaustive=True, budget_s=60, render=lambda c: {'answer': c[0], 'wrapped': c[1], 'where': c[2]}),
+        Suite('emptiness', check_emptiness, cases=emptiness_cases, exhaustive=True, budget_s=60, render=lambda c: {'value': EMPTINESS[c[0]], 'condition': c[1], 'where': c[2]}),
         Suite('shipped-aliases', check_alias, cases=alias_cases, exhaustive=True, budget_s=60),
         Suite('stock-table', check_table, cases=table_cases, exhaustive=True, budget_s=120, render=lambda c: {'condition': STOCK[c[0]], 'wrapped': c[1], 'value': repr(TABLE_VALUES[c[2]]), 'inner': c[3]}),
     ]
